@@ -966,7 +966,7 @@ def gen_note(r):
 def files_chunk(k):
   rec = _rec()
   r = rng(SEED, f"c11files{k}")
-  n = 120 if QUICK else 2500
+  n = 120 if QUICK else 6000
   for i in range(n):
     special = None
     if r.random() < 0.4:
@@ -1155,7 +1155,7 @@ def main():
                                             "{none,start,center,end,left,right} x vertical {none,rl,lr} x 2 companions",
                            "cues": n_grid, "exhaustive": True},
                   "nesting": {"chains": len(nesting_cases()), "depth": 3, "exhaustive": True},
-                  "files": n_file_chunks * (120 if QUICK else 2500), "writer": "3 documents x 8 configurations",
+                  "files": n_file_chunks * (120 if QUICK else 6000), "writer": "3 documents x 8 configurations",
                   "exhaustive_contracts": ["region inside root container", "region writing mode / text alignment / display alignment",
                                            "region anchored at the line position", "region anchored at the cue position",
                                            "nesting: to_model(text) == oracle(text)"]})
